@@ -968,8 +968,9 @@ func compareLogicXEQ(left r.Element, right r.Element) (bool, error) {
 			if len(vla) != len(vra) {
 				return false, nil
 			}
-			// cmp each item
-			for idx := range vla {
+			// cmp each item (in the key order of the left hashmap, so the result
+			// does not depend on the iteration order of Go maps)
+			for _, idx := range vl.GetKeyOrder() {
 				// ensure the key exists on vr
 				vrr, ok := vra[idx]
 				if !ok {
@@ -979,7 +980,10 @@ func compareLogicXEQ(left r.Element, right r.Element) (bool, error) {
 				if err != nil {
 					return false, err
 				}
-				return cmpVal, nil
+				// break the loop only when cmpVal = false
+				if !cmpVal {
+					return false, nil
+				}
 			}
 			return true, nil
 		}
